@@ -843,6 +843,9 @@ pub fn gen_c10(em: &mut Emitter, rng: &mut Rng) {
                and the decrypted pseudonyms of one credential in two domains not related by such scalars".into();
     suite_run::<Bbs>(em, rng, "bbs");
     suite_run::<Ps>(em, rng, "ps");
+    // the encryption statements re-pointed at another hidden claim / credential, with the proof's index list in every order
+    crate::c05::c05_suite::<Bbs>(em, &mut rng.sub(7009), "bbs", "c10", Some(&["verenc", "ved"]));
+    crate::c05::c05_suite::<Ps>(em, &mut rng.sub(7010), "ps", "c10", Some(&["verenc", "ved"]));
     let base = 2 * em.n(10, 100);
     if em.mine(base) {
         byte_coverage::<Bbs>(em, &mut rng.sub(7001), "bbs");
